@@ -15,7 +15,7 @@ import peggen
 import pegdump
 from translate import arpeggio_tr
 
-IMPORTS = "From TxV Require Import Core.Base Core.Show Model.PegSyntax Model.Peg Model.PegShow Proofs.PegProofs.\nOpen Scope string_scope."
+IMPORTS = "From TxV Require Import Core.Base Core.Show Model.PegSyntax Model.Peg Model.PegShow Proofs.PegProofs Proofs.PegTerm.\nOpen Scope string_scope."
 FUEL = 120
 
 
@@ -35,6 +35,23 @@ def ctx_constant(dump):
 def theorem_applies(dump):
     """Hypothesis of C19_memo_safe: the grammar is in the class (any parser configuration)."""
     return ctx_constant(dump)
+
+
+def regex_nullable_flags(dump):
+    """Per oracle id: may the terminal match the empty string?  Regexes: minimal width 0 according to
+    Python's own parser (sound: a positive minimal width means no empty match at any position).
+    This is the `rxn` argument of PegTerm.terminating."""
+    import re
+    flags = []
+    for o in dump["oracles"]:
+        if o[0] != "re":
+            flags.append(True)
+            continue
+        try:
+            flags.append(re._parser.parse(o[1], o[2]).getwidth()[0] == 0)
+        except Exception:
+            flags.append(True)
+    return flags
 
 
 def _reach(dump, start):
@@ -161,13 +178,15 @@ def run(chk):
             results[i] = (cases[i], x)
     defs, exprs, index = coq_defs_and_exprs(results)
     gidx = [ci for ci, (case, res) in enumerate(results) if res.get("dump") is not None]
-    cls_exprs = ["show_bool (ctx_constant g%d)" % ci for ci in gidx]
+    cls_exprs = ["String.append (show_bool (ctx_constant g%d)) (show_bool (terminating (fun o => nth o %s true) g%d))" % (
+        ci, core.coq_list([core.coq_bool(b) for b in regex_nullable_flags(results[ci][1]["dump"])]), ci) for ci in gidx]
     vals, errs = core.coq_eval("C19", IMPORTS, exprs + cls_exprs, defs=defs, shard=150)
     disagreements, failures = [], []
     if errs:
         disagreements.append({"case": "coq evaluation", "model": errs[:2]})
     mvals = dict(zip(index, vals[:len(exprs)]))
-    coq_cls = dict(zip(gidx, vals[len(exprs):]))
+    coq_cls = {ci: (v[:1] if v else None) for ci, v in zip(gidx, vals[len(exprs):])}
+    coq_term = {ci: (v[1:2] if v else None) for ci, v in zip(gidx, vals[len(exprs):])}
     for ci, (case, res) in enumerate(results):
         if res["grammar_error"]:
             chk.stat("grammar rejected: " + res["grammar_error"].split(":")[0])
@@ -186,7 +205,15 @@ def run(chk):
                                   "model": "Coq ctx_constant = %s" % coq_cls.get(ci)})
         chk.stat("grammars: %s" % ("in the proved class" if cc else (
             "context-dependent" if cdep else ("memoizable comment model" if memoizable_comment_model(d) else "other"))))
+        term = coq_term.get(ci) == "T"
+        chk.stat("grammars: PegTerm.terminating = %s" % coq_term.get(ci))
         for ii, (text, run_) in enumerate(zip(case["inputs"], res["runs"])):
+            if run_.get("timeout") and term:
+                # an instance of PEG_run_terminates against the real interpreter: a grammar accepted by the
+                # termination check must not need the per-input timer
+                disagreements.append({"case": {"grammar": case["grammar"], "opts": case["opts"], "input": text},
+                                      "impl": "the real parser did not finish within the per-input timer",
+                                      "model": "PegTerm.terminating = true"})
             if run_.get("timeout") or run_.get("unsupported"):
                 chk.stat("input skipped (timeout/unsupported)")
                 continue
@@ -204,6 +231,8 @@ def run(chk):
                 mo, _, mn = mv.partition(" | ")
                 if not (model_equiv_impl(mo, t_off) and model_equiv_impl(mn, t_on)):
                     disagreements.append({"case": cinfo, "impl": [t_off, t_on], "model": [mo, mn]})
+                if term and (mo.startswith("A:0") or mn.startswith("A:0") or "X:RecursionError" in (t_off, t_on)):
+                    disagreements.append({"case": cinfo, "impl": [t_off, t_on], "model": [mo, mn, "PegTerm.terminating = true but out of fuel / RecursionError"]})
                 if mo != mn:
                     chk.stat("model: memo changes outcome")
                     if theorem_applies(d) and not mo.startswith("A:"):
